@@ -275,6 +275,9 @@ func (vc *VC) send(x *ssa.Send, st *State) {
 }
 
 func (vc *VC) recv(x *ssa.UnOp, st *State) {
+	// a completed blocking receive is remembered (waitedfor(ch) in contracts)
+	vc.heapKeySort("#waited", types.Typ[types.Bool])
+	vc.heapWrite(st, "#waited", types.Typ[types.Bool], vc.val(x.X).S, "true")
 	t := x.Type()
 	if x.CommaOk {
 		tup := t.(*types.Tuple)
